@@ -46,7 +46,7 @@ struct MidiWorld : World {
     }
     std::vector<Op> simpler(const Op &op) const override { std::vector<Op> v; if (op.kind == M_PAIR) { Op o = op; o.kind = M_CC; v.push_back(o); } if (op.kind == M_CC && op.a[1] != 64) { Op o = op; o.a[1] = 64; v.push_back(o); } if (op.kind == U_MAP && (op.a[1] & 1)) { Op o = op; o.a[1] = 0; v.push_back(o); } return v; }
     void gen(const std::string &, Rng &kr, Rng &pr, Knobs &k, Plan &p) override {
-        k.assign(4, 0); k[0] = 2 + kr.below(3); k[1] = 2 + kr.below(5); k[2] = kr.chance(0.12); k[3] = kr.below(NADDR);
+        k.assign(4, 0); k[0] = 2 + kr.below(3); k[1] = 2 + kr.below(5); k[2] = kr.chance(0.5); /* (the knob used to gate the triggers of two known findings; both are repaired, half of the runs overtake freely now) */ k[3] = kr.below(NADDR);
         int na = (int)k[0], nc = (int)k[1]; int n = 1 + (int)pr.below(g_tier ? 100 : 40);
         double w_user = 0.15 + 0.2 * pr.unit(), w_midi = 0.25 + 0.3 * pr.unit(), w_del = 0.2 + 0.4 * pr.unit(); double tot = w_user + w_midi + w_del;
         for (int i = 0; i < n; i++) { Op o; double u = pr.unit() * tot;
@@ -107,7 +107,8 @@ struct MidiWorld : World {
             if ((t != 'i' && t != 'f') || !(val >= lo && val <= hi)) { snprintf(b, sizeof b, "op %d: controller %d value %d drove %s with %c %.9g outside [%g,%g]", opi, id, v, m, t, val, lo, hi); fail("RANGE", b); return false; }
             if (!node.apply_raw(m)) { snprintf(b, sizeof b, "op %d: message to %s (type %c) is not admitted by its port", opi, m, t); fail("TYPE", b); return false; }
             stat_add(P_DRIVEN); if (!chA.empty() || !chB.empty()) nontrivial = true; if (out) *out = val; if (to) *to = addr;
-            { // the same 14-bit controller value produces the same output, whatever happened to OTHER addresses in between
+            bool stale_drive; { std::string a2; bool c2; stale_drive = id_owner(mb, id, a2, c2) != 1 || a2 != addr || c2 != coarse; }   // the realtime half still acts on a generation the other half has left
+            if (!stale_drive) { // the same 14-bit controller value produces the same output, whatever happened to OTHER addresses in between (a drive under a stale generation is no input of the binding that replaces it)
                 Mem &mm = mem[addr]; if (coarse) mm.vc = v; else mm.vf = v; Bind gb = gen[addr]; bool know = (gb.coarse < 0 || mm.vc >= 0) && (gb.fine < 0 || mm.vf >= 0) && gb.coarse >= 0;
                 if (know) { auto key = std::make_pair(mm.vc, gb.fine < 0 ? 0 : mm.vf); auto itS = mm.seen.find(key);
                     for (auto &sv : mm.seen) if ((sv.first < key && sv.second > val) || (key < sv.first && sv.second < val)) { snprintf(b, sizeof b, "op %d: %s: (coarse %d, fine %d) produced %.9g but (coarse %d, fine %d) produced %.9g: the output does not grow with the 14-bit controller value", opi, addr.c_str(), key.first, key.second, val, sv.first.first, sv.first.second, sv.second); fail("MONOTONIC-14", b); return false; }
@@ -116,13 +117,19 @@ struct MidiWorld : World {
             return true;
         };
         auto deliver_A = [&]() { if (chA.empty()) return; Msg x = chA.front(); chA.pop_front(); const char *m = x.raw.data();
-            if (x.is_bind) { if (!x.from_assign && !rt_pending.empty()) { stat_add(P_FOREIGN_POP); add_taint("bind-pops-foreign-pending"); } if (!rt_pending.empty()) rt_pending.pop_front(); gen = x.snap; } else if (!strcmp(m, "/midi-learn/midi-add-watch")) rt_watch++;
+            if (x.is_bind) { if (!x.from_assign && !rt_pending.empty()) stat_add(P_FOREIGN_POP);   // a snapshot that answers no report arrives while a report is pending (was the trigger of a finding repaired since)
+                // a snapshot retires exactly the pending controllers it maps
+                for (auto it = rt_pending.begin(); it != rt_pending.end();) { std::string a_; bool c_; if (id_owner(x.snap, *it, a_, c_) > 0) it = rt_pending.erase(it); else ++it; }
+                gen = x.snap; } else if (!strcmp(m, "/midi-learn/midi-add-watch")) rt_watch++;
+            else if (!strcmp(m, "/midi-learn/midi-remove-watch")) { if (rt_watch > 0) rt_watch--; }   // a dropped request gives its watch back
+            else if (!strcmp(m, "/midi-learn/midi-unuse-CC")) { int id_ = rtosc_argument(m, 0).i; for (auto it = rt_pending.begin(); it != rt_pending.end(); ++it) if (*it == id_) { rt_pending.erase(it); break; } }   // nobody waited for the reported controller
             rtosc::RtData d; d.obj = rt; char loc[128] = ""; d.loc = loc; d.loc_size = sizeof loc; rtosc::MidiMapperRT::ports.dispatch(m + strlen("/midi-learn/"), d); };
         auto deliver_B = [&]() { if (chB.empty()) return; Msg x = chB.front(); chB.pop_front(); if (x.use_id < 0) return; int id = x.use_id;
             std::string a; bool c; bool dup = id_owner(mb, id, a, c) > 0;
             if (mq.empty()) { last_from_assign = false; nrt->useFreeID(id); check_nrt_view("use-CC with nothing queued"); return; }   // nothing to assign; whether the controller stays learnable is judged in the closing phase
-            if (dup && taint.empty()) { snprintf(b, sizeof b, "op %d: controller %d is already assigned to %s, yet the realtime half reported it as free again while nothing had retired its first report", opi, id, a.c_str()); fail("DUPLICATE-REQUEST", b); return; }
-            if (dup) { stat_add(P_DUP_REQUEST); add_taint("duplicate-use-cc"); last_from_assign = true; nrt->useFreeID(id); last_from_assign = false; resync_model(); model_trusted = false; for (auto &mm : chA) if (mm.is_bind) mm.snap = mb; return; }
+            // a report for a controller that is assigned already (the realtime half had not seen the snapshot yet when the controller moved again): it is not free, the
+            // oldest request keeps waiting and gets its watch back
+            if (dup) { stat_add(P_DUP_REQUEST); snprintf(b, sizeof b, "op %d: controller %d is already assigned to %s, yet the realtime half reported it as free again while nothing had retired its first report", opi, id, a.c_str()); fail("DUPLICATE-REQUEST", b); return; }
             auto front = mq.front(); mq.pop_front(); mem.erase(front.first); if (front.second) mb[front.first].coarse = id; else { mb[front.first].fine = id; stat_add(P_FINE); }
             last_from_assign = true; nrt->useFreeID(id); last_from_assign = false; stat_add(P_ASSIGNED); if (!chA.empty()) nontrivial = true;
             check_nrt_view("controller assigned to the oldest request"); };
@@ -142,7 +149,8 @@ struct MidiWorld : World {
             if (kind == U_MAP) { if (it != mb.end()) { if (coarse) it->second.coarse = -1; else it->second.fine = -1; if (it->second.coarse == -1 && it->second.fine == -1) mb.erase(it); } mq.push_back({a, coarse}); if (mq.size() >= 2) stat_add(P_QUEUE2); nrt->map(a.c_str(), coarse); }
             else if (kind == U_UNMAP) { if (it != mb.end()) { if (coarse) it->second.coarse = -1; else it->second.fine = -1; if (it->second.coarse == -1 && it->second.fine == -1) mb.erase(it); } nrt->unMap(a.c_str(), coarse); }
             else { stat_add(P_CLEAR); bool inflight = !rt_pending.empty(); for (auto &mm : chA) if (!mm.is_bind) inflight = true; for (auto &mm : chB) if (mm.use_id >= 0) inflight = true;
-                if (rt_watch > 0 || !mq.empty() || inflight) { stat_add(P_PENDING_LEAK); add_taint("pending-leak"); } mb.clear(); mq.clear(); nrt->clear(); }
+                if (rt_watch > 0 || !mq.empty() || inflight) stat_add(P_PENDING_LEAK);   // clear() while the realtime half still watches or holds a report (was the trigger of a finding repaired since)
+                mb.clear(); mq.clear(); nrt->clear(); }
             for (auto &mm : chA) if (mm.is_bind && mm.snap.empty() && !mb.empty() && false) mm.snap = mb;
             // binds emitted by this op carry the bindings as they are now
             for (auto itA = chA.rbegin(); itA != chA.rend(); ++itA) { if (!itA->is_bind) continue; itA->snap = mb; break; }
